@@ -89,7 +89,7 @@ theorem C19_link_modes (m : CopyMode) (hm : m ≠ .copy) (orig fresh : Nat) (fs 
     writeThrough true m orig fresh fs new orig = new := by
   cases m <;> simp_all [writeThrough, bodyTarget, stage]
 
-/-- D60: a python task's function is called with the task's own attribute values (`asdict(self)`), never with
+/-- D63: a python task's function is called with the task's own attribute values (`asdict(self)`), never with
     the staged copies of `Job.inputs`; so even with `copy_mode = copy` the body's write lands in the original. -/
 theorem C19_witness_python_copy :
     writeThrough false .copy 0 1 (fun _ => 5) 9 0 = 9 ∧ writeThrough true .copy 0 1 (fun _ => 5) 9 0 = 5 := by
